@@ -28,4 +28,11 @@ theorem C05_member_in_position_order (ord : Order) (ho : OrderOK ord) (pf M : Na
   obtain ⟨k, hk⟩ := dfs_exact pf M m (.call rfl) a ys hm
   exact ⟨ys, ps, k, hk, pw, mem, z⟩
 
+section Examples
+/-- non-vacuity: `member(x, [1, 2])` called inside `dfs { }` is in the fragment and its reference list has two states -/
+example : OnlyD (.call ⟨.member, [.var 0, ofList [Term.num 1, Term.num 2]], true⟩ : G) := .call rfl
+example : (evalRef (defs Order.default) 30 (.call ⟨.member, [.var 0, ofList [Term.num 1, Term.num 2]], true⟩) (State.empty 1)).map
+    (fun ys => ys.map fun s => apply s.σ (.var 0)) = some [Term.num 1, Term.num 2] := by decide +kernel
+end Examples
+
 end Pv
